@@ -1,5 +1,5 @@
 (* C13.D6/D7 (partial) — the CH-form model against the regenerated tables and, exactly in K8 = Q(zeta_8), against the
-   reference state-vector semantics: for every circuit of up to 4 gates on one qubit, up to 3 gates on two and three
+   reference state-vector semantics: for every circuit of up to 4 gates on one qubit, up to 3 gates on two qubits, up to 2 gates (and three longer circuits) on three
    qubits over generator sets containing every kind of gate of the vocabulary (all effective exponents of X/Y/Z, H, CZ,
    both CX orientations, SWAP, global phases), the model's state_vector() equals the documented matrices applied to
    |0..0>, global phase included.  Amplitude evolution for arbitrary n and circuits is not proved (see DESIGN C13). *)
@@ -26,6 +26,14 @@ Proof. vm_compute. reflexivity. Qed.
 Definition gens1 : list (cgate * K8) :=
   [(CH_ 4 0, one8); (CZ_ 2 0, one8); (CX_ 2 0, one8); (CY_ 2 0, one8); (CY_ 4 0, one8); (CY_ 6 0, ki K8Ops); (CX_ 6 0, one8);
    (CZ_ 6 0, zeta K8Ops)].
+(* a few longer three-qubit circuits (GHZ with phases, swaps of entangled qubits, Y-basis rotations) *)
+Definition long3 : list (list (cgate * K8)) :=
+  [[(CH_ 4 0, one8); (CCX_ 4 0 1, one8); (CCX_ 4 1 2, one8); (CZ_ 2 2, one8); (CH_ 4 1, one8); (CY_ 2 0, one8)];
+   [(CH_ 4 2, one8); (CCX_ 4 2 0, one8); (CSWAP_ 4 0 1, one8); (CX_ 2 1, one8); (CCZ_ 4 1 2, one8); (CH_ 4 0, one8); (CY_ 6 2, one8)];
+   [(CX_ 4 0, one8); (CH_ 4 1, one8); (CZ_ 6 1, one8); (CH_ 4 1, one8); (CCX_ 4 1 2, ki K8Ops); (CCZ_ 4 0 2, one8); (CH_ 4 2, one8);
+    (CSWAP_ 4 2 1, zeta K8Ops)]].
+Definition long_ok : bool :=
+  forallb (fun w => match ref_vector 3 w, ch_vector 3 w with Some a, Some b => k8v_eqb a b | _, _ => false end) long3.
 Theorem chform_small_ok_partial :
-  small_ok 1 gens1 4 = true /\ small_ok 2 gens2 3 = true /\ small_ok 3 gens3 3 = true.
+  small_ok 1 gens1 4 = true /\ small_ok 2 gens2 3 = true /\ small_ok 3 gens3 2 = true /\ long_ok = true.
 Proof. repeat split; vm_compute; reflexivity. Qed.
